@@ -9,6 +9,8 @@ import NibabelModel.Lemmas.C16_Items
 import NibabelModel.Lemmas.C16_File
 import NibabelModel.Lemmas.C16_Lazy
 import NibabelModel.Lemmas.C16_Aff
+import NibabelModel.Lemmas.C16_ByteOrder
+import NibabelModel.Lemmas.C16_Pending
 /-! Props/C16 — property theorems for C16 (tractograms round-trip through TRK and TCK in RAS+ mm).
     Statements about the TCK header arithmetic are about the definitions REGENERATED from the source
     (`Gen.*`, Generated/C16.lean). -/
@@ -184,7 +186,12 @@ example : encodeName 3 [102, 97] = .ok ([102, 97, 0, 51] ++ List.replicate 16 0)
     ending), every start position and EVERY history of consumer actions (`next`/`close` in any
     order, including abandoning the generator after the first record, iterating to the end, and an
     exception raised by the reader): whenever the generator is not suspended at a `yield`, the file
-    position is the one found at the start. -/
+    position is the one found at the start.
+    (AUDIT NOTE: `Gen.advance`/`Gen.step` SET `pos := start` in the `fixed` branch, so on its own this
+    is an invariant of a hand-written state machine.  It is no longer the foundation:
+    `gen_refines_finally_semantics` proves `Gen` equal to the generator-with-finally semantics `FGen`
+    instantiated with the seek placement, `finally_restores_iff` derives the restore property from that
+    semantics, and `position_restored_src` states it about the placement read off the source AST.) -/
 theorem position_invariant {α} (run : GenRun α) (start : Nat) (acts : List Act) :
     ((Gen.init run true start).runActs acts).st.isSuspended = false →
       ((Gen.init run true start).runActs acts).pos = start := by
@@ -232,7 +239,9 @@ theorem position_invariant {α} (run : GenRun α) (start : Nat) (acts : List Act
 
 /-- `position_restored`: for both readers, every data section, buffer size, start position and
     consumer history, once the generator is finished (ran to the end, raised, or was closed /
-    garbage-collected after any number of items) or was never started, `tell()` is where it was. -/
+    garbage-collected after any number of items) or was never started, `tell()` is where it was.
+    (GLUE: instance of `position_invariant` for the two reader runs; the source-tied statement is
+    `position_restored_src`.) -/
 theorem position_restored (start : Nat) (acts : List Act) :
     (∀ (c ragged off : Nat) (data : List Triple),
       ((Gen.init (tckRead c ragged off data) true start).runActs acts).st.isSuspended = false →
@@ -424,7 +433,9 @@ example : SchemaOk [([102, 97], 2)] ∧ ∃ sf, nameTable [([102, 97], 2)] = .ok
     voxel-to-RAS matrix: `get_affine_trackvis_to_rasmm` succeeds, its result `T` is invertible, and
     with `toTrackvis = T.inv` (the exact inverse `save` uses) `toRas (toTrackvis p) = p` and
     `toTrackvis (toRas p) = p` for every point, exactly over `Rat`.
-    (Float32 rounding of `T`, of `np.linalg.inv` and of the products is outside the model.) -/
+    (Float32 rounding of `T`, of `np.linalg.inv` and of the products is outside the model.)
+    EXACT ARITHMETIC: this is a statement about the composed rational affine, not about float32
+    storage; see `trackvis_affine_invertible_exact` (same statement under the honest name). -/
 theorem trackvis_affine_invertible (g : TrkGeom) (affOrnt : Ornt)
     (horder : g.order ∈ voxelOrders) (haff : affOrnt ∈ allOrnts)
     (hvs : g.vs.1 ≠ 0 ∧ g.vs.2.1 ≠ 0 ∧ g.vs.2.2 ≠ 0) (hdet : g.v2r.det ≠ 0) :
@@ -454,11 +465,25 @@ theorem trackvis_affine_invertible (g : TrkGeom) (affOrnt : Ornt)
 example : (['L', 'P', 'S'] : List Char) ∈ voxelOrders ∧ ([(1, -1), (0, 1), (2, 1)] : Ornt) ∈ allOrnts := by
   decide +kernel
 
+/-- `trackvis_affine_invertible` under the name that says what it is: exact rational arithmetic. -/
+theorem trackvis_affine_invertible_exact (g : TrkGeom) (affOrnt : Ornt)
+    (horder : g.order ∈ voxelOrders) (haff : affOrnt ∈ allOrnts)
+    (hvs : g.vs.1 ≠ 0 ∧ g.vs.2.1 ≠ 0 ∧ g.vs.2.2 ≠ 0) (hdet : g.v2r.det ≠ 0) :
+    ∃ T, trackvisToRas g affOrnt = .ok T ∧ rasToTrackvis g affOrnt = .ok T.inv ∧ T.det ≠ 0 ∧
+      ∀ p, T.apply (T.inv.apply p) = p ∧ T.inv.apply (T.apply p) = p :=
+  trackvis_affine_invertible g affOrnt horder haff hvs hdet
+
 /-! ### Lazily loaded tractograms deliver RAS+mm items -/
 
 /-- what iterating a lazily loaded tractogram yields (`LazyTractogram.data`, used by `save`) has
     the same points as its `.streamlines` property, and the per-point / per-streamline data of the
-    reader's items unchanged -/
+    reader's items unchanged.
+    (GLUE / definitional: `lazyItems` and `lazyStreamlines` are two folds of the same `applyAffBits A`
+    over the same raw items — the two real code paths, `LazyTractogram.data` and `.streamlines`, are
+    separate functions that both apply `_affine_to_apply`; that they do is checked by the `trk` and
+    `lzaff` correspondence streams, and the algebra of what is pending is `lazy_world_invariant` /
+    `lazy_resave_roundtrip`.  The theorem records that the item iteration carries the dicts through
+    untouched and fails on exactly the same inputs.) -/
 theorem lazy_items_agree (A : Aff) (raw : List Item) (its : List Item) (h : lazyItems A raw = some its) :
     lazyStreamlines A raw = some (its.map (·.pts)) ∧
     its.map (·.dpp) = raw.map (·.dpp) ∧ its.map (·.dps) = raw.map (·.dps) := by
@@ -494,7 +519,9 @@ theorem lazyItems_orig_counterexample :
 
 /-- TCK: the eager tractogram (the reader consumed into an `ArraySequence`: one concatenated buffer
     cut again by the stored lengths) has exactly the streamlines the lazy generator yields, and
-    both fail on the same files with the same error. -/
+    both fail on the same files with the same error.
+    (GLUE: both sides consume the SAME reader run; the content is `ArraySequence` concatenate-then-cut
+    = identity (`ofLists_toLists`).  The two real call sites share `TckFile._read`.) -/
 theorem lazy_eq_eager_tck (run : GenRun (List Triple)) : tckEager run = tckLazy run := by
   unfold tckEager tckLazy
   cases run.err with
@@ -572,5 +599,164 @@ theorem lazy_eq_eager_trk_load (A : Aff) (h : TrkCounts) (words : List Nat) (dpp
   lazy_eq_eager_trk A dppS dpsS _ hne (nameSlices_nodup _ _ _ _ h1) (nameSlices_nodup _ _ _ _ h2)
 
 example : ([([102, 97], 0, 2), ([109], 2, 3)] : List (Name × Nat × Nat)).map (·.1) |>.Nodup := by decide
+
+/-! ### TRK byte order (`_read_header` endianness swap; `_read` decodes in the detected order) -/
+
+/-- no four bytes read as 1000 in both byte orders: the `hdr_size` test is unambiguous -/
+theorem trk_hdr_size_unambiguous (a b c d : Nat) (ha : a < 256) (hb : b < 256) (hc : c < 256) (_hd : d < 256) :
+    ¬ (dec32 .little a b c d = 1000 ∧ dec32 .big a b c d = 1000) := by
+  simp only [dec32, decWord]; omega
+
+/-- **A TRK file written in EITHER byte order reads back.**  For every header the structured array
+    can hold (`TrkHdr.WF`: the opaque blocks have their sizes, ten 20-byte names each, counts in
+    range) with `hdr_size = HEADER_SIZE` (regenerated) and version 1, 2 or 3, written in byte order
+    `e` and followed by records encoded in the same order (32-bit words; each record agreeing with
+    the header's `ns`/`np`; `n_count` 0 or the number of records): `_read_header` detects exactly
+    `e` from the `hdr_size` field alone, returns every modelled field unchanged, and `_read`
+    (decoding with the detected order) yields exactly the records, in order, without error. -/
+theorem trk_byteorder_roundtrip (e : Endian) (h : TrkHdr) (hw : h.WF) (hs : h.hdrSize = Gen.trkHeaderSize)
+    (hv : h.version = 1 ∨ h.version = 2 ∨ h.version = 3)
+    (recs : List TrkRec) (hrec : ∀ r ∈ recs, r.WF h.ns h.np) (h32 : ∀ w ∈ trkDataWords recs, w < 4294967296)
+    (hann : h.n = 0 ∨ h.n = recs.length) :
+    ∃ run, trkReadBytes (trkHdrBytes e h ++ encWords e (trkDataWords recs)) = .ok (e, h, run) ∧
+      run.items.map (·.1) = recs ∧ run.err = none := by
+  have hs' : h.hdrSize = 1000 := hs
+  refine ⟨trkRead h.ns h.np h.n trkHeaderSize (trkDataWords recs), ?_, ?_⟩
+  · unfold trkReadBytes
+    rw [trkParseHeader_written e h hw hs' hv]
+    simp only
+    have : (trkHdrBytes e h ++ encWords e (trkDataWords recs)).drop trkHeaderSize = encWords e (trkDataWords recs) :=
+      drop_append_len _ _ _ (trkHdrBytes_length e h hw)
+    rw [this, decWords_encWords e _ h32]
+  · exact trk_records_roundtrip h.ns h.np trkHeaderSize recs hrec h.n hann
+
+/-- a header whose `hdr_size` bytes read as `HEADER_SIZE` in neither order is refused (HeaderError),
+    whatever else the file holds -/
+theorem trk_bad_hdr_size_refused (bytes : List Nat)
+    (h1 : get32 .little (trkHdrBuf bytes) Gen.trkOffHdrSize ≠ Gen.trkHeaderSize)
+    (h2 : get32 .big (trkHdrBuf bytes) Gen.trkOffHdrSize ≠ Gen.trkHeaderSize) :
+    trkReadBytes bytes = .error .header := by
+  have h1' : get32 .little (trkHdrBuf bytes) trkOffHdrSize ≠ trkHeaderSize := h1
+  have h2' : get32 .big (trkHdrBuf bytes) trkOffHdrSize ≠ trkHeaderSize := h2
+  simp [trkReadBytes, trkParseHeader, trkDetectEndian, h1', h2']
+
+/-- non-vacuity: the default header (`RAS`, 1×1×1, identity) in big-endian order with one record -/
+example : ∃ h : TrkHdr, h.WF ∧ h.hdrSize = Gen.trkHeaderSize ∧ h.version = 2 ∧ h.ns = 1 ∧ h.n = 1 :=
+  ⟨⟨List.replicate 36 0, 1, List.replicate 10 (List.replicate 20 0), 0, List.replicate 10 (List.replicate 20 0),
+    List.replicate 548 0, 1, 2, 1000⟩,
+   ⟨List.length_replicate, by decide, List.length_replicate, by intro f hf; simp at hf; simp [hf],
+    by decide, List.length_replicate, by intro f hf; simp at hf; simp [hf], List.length_replicate, by decide, by decide⟩,
+   rfl, rfl, rfl, rfl⟩
+
+example : get32 .little [0, 0, 3, 232] 0 = 3892510720 ∧ get32 .big [0, 0, 3, 232] 0 = 1000 ∧
+    get32 .little [232, 3, 0, 0] 0 = 1000 := by decide
+
+/-! ### Pending affines: `LazyTractogram.apply_affine` / `to_world` and the save pipelines -/
+
+/-- **World coordinates are invariant under every history** of `apply_affine(A)` (invertible `A`) and
+    `to_world()` calls on a (Lazy)Tractogram whose `affine_to_rasmm` is invertible: for the final
+    object, `affine_to_rasmm ∘ _affine_to_apply` maps every raw point to the same RAS+mm point as at
+    the start (and `affine_to_rasmm` stays invertible).  Exact arithmetic over `Rat`;
+    `np.linalg.inv` = exact inverse. -/
+theorem lazy_world_invariant (ops : List AffOp) (hok : ∀ o ∈ ops, o.Ok) (t t' : LazyT) (hr : t.RasOk)
+    (h : t.run ops = .ok t') : (∀ p, t'.world p = t.world p) ∧ t'.RasOk :=
+  lazy_run_world ops hok t t' hr h
+
+/-- **Re-saving a tractogram with pending affines under any TRK header.**  Start from any
+    bookkeeping state `t0` with an invertible `affine_to_rasmm`, run any history of invertible
+    `apply_affine` / `to_world` calls (a lazily loaded TRK file is the history `[apply T₁]` from
+    `affine_to_rasmm = T₁`… followed by `to_world`), then `TrkFile.save` under a header whose
+    trackvis→RAS+mm affine `T` is invertible (any other voxel order / sizes / vox_to_ras — `T` need
+    not commute with what is pending): the save pipeline succeeds and the point it writes for the
+    raw point `p`, mapped by the loader's `T`, is exactly the RAS+mm point of `p` in `t0`.
+    (`TckFile.save` is the case `T = identity`.) -/
+theorem lazy_resave_roundtrip (ops : List AffOp) (hok : ∀ o ∈ ops, o.Ok) (t0 t : LazyT) (hr : t0.RasOk)
+    (hR0 : t0.toRas ≠ none) (h : t0.run ops = .ok t) (T : Aff) (hT : T.det ≠ 0) :
+    ∃ s, trkSavePipeline t T = .ok s ∧ ∀ p, some (T.apply (s.see p)) = t0.world p := by
+  have hw := lazy_run_world ops hok t0 t hr h
+  cases hR : t.toRas with
+  | none =>
+    -- impossible: the space stays known
+    exfalso
+    cases hR0' : t0.toRas with
+    | none => exact hR0 hR0'
+    | some R0 =>
+      have := hw.1 (0, 0, 0)
+      simp [LazyT.world, hR, hR0'] at this
+  | some R =>
+    obtain ⟨s, hs, hp⟩ := lazy_resave t R hR T hT
+    refine ⟨s, hs, fun p => ?_⟩
+    rw [hp p, ← hw.1 p]
+    simp [LazyT.world, hR]
+
+/-- non-vacuity: a lazily loaded TRK tractogram (pending = shift by half a voxel) -/
+example : (⟨shiftHalf, some Aff.one⟩ : LazyT).RasOk ∧ (AffOp.apply shiftHalf).Ok := by
+  refine ⟨?_, ?_⟩
+  · intro R hR; simp at hR; subst hR; decide +kernel
+  · show shiftHalf.det ≠ 0; rw [det_shiftHalf]; decide
+
+/-- the seeded order bug (`dot(_affine_to_apply, affine)` instead of `dot(affine, _affine_to_apply)`):
+    with a pending scaling by 2, applying the half-voxel shift moves the world coordinates -/
+theorem lazy_compose_order_counterexample :
+    ((⟨scaleInv (1/2, 1/2, 1/2), some Aff.one⟩ : LazyT).applyAffineSwapped shiftHalf).see (1, 1, 1) ≠
+    ((⟨scaleInv (1/2, 1/2, 1/2), some Aff.one⟩ : LazyT).applyAffine shiftHalf).see (1, 1, 1) := by
+  decide +kernel
+
+/-! ### File position: from the generator-with-finally semantics -/
+
+/-- **Derived, not postulated**: in the CPython semantics of generators (`FGen`: `close()` /
+    garbage collection raise GeneratorExit at the suspended `yield`; a `finally:` clause runs on
+    every way of leaving its `try`; a trailing statement only on normal completion), a reader whose
+    `f.seek(start, whence)` is described by `s` restores the position for EVERY run, start position
+    and consumer history **iff** `s` is (`SEEK_SET`, in the `finally` enclosing every `yield`). -/
+theorem finally_restores_iff (s : SeekSpec) :
+    (∀ (run : GenRun Nat) (start : Nat) (acts : List Act),
+      ((FGen.init run s start).runActs acts).st.isSuspended = false →
+      ((FGen.init run s start).runActs acts).pos = start) ↔ s = seekFixed := by
+  constructor
+  · intro H
+    obtain ⟨w, f⟩ := s
+    cases w <;> cases f
+    · -- SEEK_SET as trailing statement: abandon after the first item
+      have := H ⟨[(1, 5)], none, 9⟩ 0 [.next, .close] (by decide)
+      exact absurd this (by decide)
+    · rfl
+    · have := H ⟨[], none, 5⟩ 1 [.next] (by decide)
+      exact absurd this (by decide)
+    · have := H ⟨[], none, 5⟩ 1 [.next] (by decide)
+      exact absurd this (by decide)
+  · intro hs run start acts
+    subst hs
+    exact fgen_fixed_invariant start acts (FGen.init run seekFixed start) rfl rfl (fun _ => rfl)
+
+/-- `Gen` (the state machine of `position_invariant` / `position_restored`, and of the driver) IS
+    the generator-with-finally semantics instantiated with (`SEEK_SET`, finally) for the current code
+    and with (`SEEK_CUR`, trailing statement) for the original code: same state and same file
+    position after every history. -/
+theorem gen_refines_finally_semantics {α} (run : GenRun α) (start : Nat) (acts : List Act) :
+    (((FGen.init run seekFixed start).runActs acts).st = ((Gen.init run true start).runActs acts).st ∧
+     ((FGen.init run seekFixed start).runActs acts).pos = ((Gen.init run true start).runActs acts).pos) ∧
+    (((FGen.init run seekOrig start).runActs acts).st = ((Gen.init run false start).runActs acts).st ∧
+     ((FGen.init run seekOrig start).runActs acts).pos = ((Gen.init run false start).runActs acts).pos) :=
+  ⟨fgen_run_rel true acts _ _ rfl rfl rfl rfl rfl rfl, fgen_run_rel false acts _ _ rfl rfl rfl rfl rfl rfl⟩
+
+/-- `position_restored` about the seek placement READ OFF THE SOURCE (`Gen.tckReadSeek`,
+    `Gen.trkReadSeek`, regenerated from the AST of the two `_read` functions on every run): for both
+    readers, every data section, buffer size, start position and consumer history, when the
+    generator is not suspended at a `yield` the file position is the one found at the start. -/
+theorem position_restored_src (start : Nat) (acts : List Act) :
+    (∀ (c ragged off : Nat) (data : List Triple),
+      ((FGen.init (tckRead c ragged off data) Gen.tckReadSeek start).runActs acts).st.isSuspended = false →
+      ((FGen.init (tckRead c ragged off data) Gen.tckReadSeek start).runActs acts).pos = start) ∧
+    (∀ (ns np announced off : Nat) (words : List Nat),
+      ((FGen.init (trkRead ns np announced off words) Gen.trkReadSeek start).runActs acts).st.isSuspended = false →
+      ((FGen.init (trkRead ns np announced off words) Gen.trkReadSeek start).runActs acts).pos = start) := by
+  rw [Gen.readSeek_eq_model.1, Gen.readSeek_eq_model.2]
+  exact ⟨fun c ragged off data => fgen_fixed_invariant start acts _ rfl rfl (fun _ => rfl),
+         fun ns np announced off words => fgen_fixed_invariant start acts _ rfl rfl (fun _ => rfl)⟩
+
+example : ((FGen.init (⟨[((1 : Nat), 40), (2, 52)], none, 64⟩ : GenRun Nat) seekFixed 7).runActs [.next, .close]).pos = 7 ∧
+    ((FGen.init (⟨[((1 : Nat), 40), (2, 52)], none, 64⟩ : GenRun Nat) seekOrig 7).runActs [.next, .close]).pos = 40 := by
+  decide
 
 end Nb.C16
